@@ -471,6 +471,40 @@ def sort_group(tier='quick'):
                 if got != sorted(vals, reverse=rev):
                     _fail(fails, 'list dataset sort(key_fn) of %r reverse=%s' % (vals, rev), 'sort-permutation-ordered', got, sorted(vals, reverse=rev))
                     return cases, fails
+            # sort / groupby of DERIVED datasets (selections built from key lists, sorted views, slices, eager filters)
+            if 1 <= n <= 4:
+                import numpy as np
+                derived = {
+                    'ds[reversed key list]': lambda: ds[list(reversed(keys))],
+                    'ds[key tuple]': lambda: ds[tuple(keys)],
+                    'ds.sort()': lambda: ds.sort(),
+                    'ds.sort(reverse=True)[0:]': lambda: ds.sort(reverse=True)[0:],
+                    'ds[::-1]': lambda: ds[::-1],
+                    'ds.shuffle()': lambda: ds.shuffle(rng=np.random.RandomState(n)),
+                    'ds.filter(eager)': lambda: ds.filter(lambda ex: ex['s'] < 2, lazy=False),
+                }
+                for dname, mkd in derived.items():
+                    cases += 1
+                    base_items = list(mkd().items())
+                    try:
+                        out = mkd().sort(lambda ex: ex['s'])
+                        got = [(k, ex['s']) for k, ex in out.items()]
+                    except Exception as e:      # noqa
+                        got = '%s: %s' % (type(e).__name__, str(e)[:80])
+                    want = sorted([(k, ex['s']) for k, ex in base_items], key=lambda kv: kv[1])
+                    if got != want:
+                        _fail(fails, '%s.sort(key_fn) of %r' % (dname, vals), 'sort-permutation-ordered', got, want)
+                        return cases, fails
+                    wantg = {}
+                    for k, ex in base_items:
+                        wantg.setdefault(ex['s'], []).append(k)
+                    try:
+                        gotg = {g: list(d.keys()) for g, d in mkd().groupby(lambda ex: ex['s']).items()}
+                    except Exception as e:      # noqa
+                        gotg = '%s: %s' % (type(e).__name__, str(e)[:80])
+                    if gotg != wantg:
+                        _fail(fails, '%s.groupby(s) of %r' % (dname, vals), 'groups-partition-in-order', gotg, wantg)
+                        return cases, fails
             for gname, gid in gids:
                 cases += 1
                 want = {}
@@ -671,6 +705,10 @@ def isolation_more(tier='quick'):
         'namedtuple': (lambda i: NT([i, i + 1], np.arange(3) + i, {'k': i}),
                        lambda x: (list(x.v), x.arr.tolist(), dict(x.meta)),
                        lambda x: (x.v.append(99), x.arr.__setitem__(0, 77), x.meta.__setitem__('new', 1))),
+        # a bare, large numpy array as the example (storage back ends may treat big arrays specially)
+        'big-ndarray': (lambda i: np.arange(10000) + i,
+                        lambda x: (x[:3].tolist(), int(x[-1]), int(x.sum() % 1000003)),
+                        lambda x: (x.__setitem__(0, 77), x.__setitem__(-1, -5))),
         'list': (lambda i: [[i, i + 1], np.arange(3) + i, {'k': i}],
                  lambda x: (list(x[0]), x[1].tolist(), dict(x[2])),
                  lambda x: (x[0].append(99), x[1].__setitem__(0, 77), x[2].__setitem__('new', 1))),
@@ -703,7 +741,20 @@ def isolation_more(tier='quick'):
             if x1 is not None:
                 mutate(x1)
             list(it)
+        def second_epoch():
+            list(ds)
+            for x in ds:
+                mutate(x)
+
+        def index_hits():
+            for i in range(3):
+                ds[i]
+            for i in range(3):
+                mutate(ds[i])
+                mutate(ds[i - 3])
         hs = [('for x in ds: mutate(x)', full), ('aborted epoch after mutating the first example', aborted),
+              ('one full epoch, then mutate every example of the second epoch', second_epoch),
+              ('read every index, then mutate what the second reads return', index_hits),
               ('for x in ds.copy(): mutate(x)', via_copy), ('mutate after the next example was requested', interleaved)]
         if keyed:
             hs.append(('for k, x in ds.items(): mutate(x)', full_items))
@@ -721,9 +772,11 @@ def isolation_more(tier='quick'):
             if mode != 'wu':
                 builders.append(('new(dict of %s, %s)' % (sname, mode), True,
                                  (lambda mode=mode: lazy_dataset.new({'k%d' % i: mk(i) for i in range(3)}, immutable_warranty=mode))))
-        rebuild = (lambda x: mk(view(x)[2]['k']))       # a map function that builds a fresh example every time
         builders.append(('map(fresh %s).cache()' % sname, True,
                          lambda: lazy_dataset.new({'k%d' % i: i for i in range(3)}).map(lambda i: mk(i)).cache()))
+        builders.append(("CacheDataset(map(fresh %s), immutable_warranty='copy')" % sname, True,
+                         lambda: lazy_dataset.core.CacheDataset(lazy_dataset.new({'k%d' % i: i for i in range(3)}).map(lambda i: mk(i)),
+                                                                immutable_warranty='copy')))
         builders.append(('map(fresh %s).diskcache()' % sname, True,
                          lambda: lazy_dataset.new({'k%d' % i: i for i in range(3)}).map(lambda i: mk(i)).diskcache(
                              tempfile.mkdtemp(prefix='verif_dc_') + '/c')))
@@ -747,7 +800,55 @@ def isolation_more(tier='quick'):
     return cases, fails
 
 
+def snapshot_isolation(tier='quick'):
+    """C09 for snapshots: from_dataset(src) / new(src) / src.cache(lazy=False) of a source stored in ANY mode is isolated
+    from the caller's original objects (pickle is the default mode of the snapshot) and from the examples it hands out"""
+    import warnings
+    import numpy as np
+    import lazy_dataset
+    warnings.simplefilter('ignore')
+    fails, cases = [], 0
+
+    def data(kind):
+        d = {'k%d' % i: {'v': [i], 'arr': np.arange(3) + i} for i in range(3)}
+        return d if kind == 'dict' else list(d.values())
+
+    def view(ds):
+        return [(list(x['v']), x['arr'].tolist()) for x in ds]
+    pristine = view(data('list'))
+    for kind in ('dict', 'list'):
+        for mode in ('pickle', 'copy') + (('wu',) if kind == 'list' else ()):
+            snaps = {'from_dataset(src)': lambda s_: lazy_dataset.from_dataset(s_), 'new(src)': lambda s_: lazy_dataset.new(s_),
+                     'src.cache(lazy=False)': lambda s_: s_.cache(lazy=False),
+                     'from_dataset(src.map(id))': lambda s_: lazy_dataset.from_dataset(s_.map(lambda x: x)),
+                     "from_dataset(src, 'copy')": lambda s_: lazy_dataset.from_dataset(s_, immutable_warranty='copy')}
+            for sname, mk in snaps.items():
+                cases += 1
+                orig = data(kind)
+                src = lazy_dataset.new(orig, immutable_warranty=mode) if mode != 'wu' else lazy_dataset.from_list(orig, immutable_warranty='wu')
+                snap = mk(src)
+                sc = '%s with src = new(%s, %r)' % (sname, kind, mode)
+                # 1. the caller mutates the original container afterwards (visible through a copy-mode source, never
+                #    through a snapshot)
+                for x in (orig.values() if kind == 'dict' else orig):
+                    x['v'].append(99)
+                    x['arr'][0] = 77
+                if view(snap) != pristine:
+                    _fail(fails, sc, 'a snapshot is isolated from the original objects', view(snap), pristine)
+                    continue
+                # 2. examples handed out by the snapshot
+                for x in snap:
+                    x['v'].append(5)
+                snap[0]['arr'][1] = -1
+                if view(snap) != pristine:
+                    _fail(fails, sc, 'a snapshot is isolated from the examples it hands out', view(snap), pristine)
+    return cases, fails
+
+
 def c09_native(tier='quick'):
+    c0, f0 = snapshot_isolation(tier)
+    if f0:
+        return c0, f0
     c1, f1 = isolation(tier)
     c2, f2 = isolation_more(tier)
     return c1 + c2, f1 + f2
